@@ -45,7 +45,7 @@ RADIUS = {
 RANDOM = {"quick": (400, 4), "thorough": (4000, 5)}
 RANDOM_KINDS = ["Proxy", "HTTPServer", "MQTTProxy", "Pipeline", "CircuitBreaker", "Validator", "RateLimiter", "Mock", "CORSAdaptor",
                 "RequestAdaptor"]
-MAXFIELDS = 19
+MAXFIELDS = 20
 
 CALLS = ("validate", "create", "init", "handle", "inherit", "close")
 MOD = "github.com/megaease/easegress/"
@@ -376,7 +376,7 @@ def run(ctx):
                        "with NoPanicAfterAccept/RuleRejected evaluated on every observed state; non-trivial = distinct accepted configurations "
                        "whose object was instantiated and served requests")
     ctx.assumptions += [
-        "value classes are concretised by the harness (one concrete value per class); 'any request' = the request classes of ConfigSpaceGrammar (HttpReqs, ServerReqs, MqttReqs, PolicyReqs; HTTP request paths are derived from the configured paths /a and /api: bare, trailing slash, extra segments, other case, percent-encoded, no segment boundary; SigReqs carry signatures made by the repository's signer with key k/secret s, k/empty secret, and a garbage signature header; CtxReqs are requests whose context ends while they are served: cancelled before arrival, cancelled by the harness's backend while the backend call is in progress, deadline expiring while the backend call or a retry back-off is in progress; the server class 'abort' closes the connection in the middle of the announced body); enum-like string fields carry the value class 'a valid value in another letter case'; TLC reports the (kind, class) pairs handled and the run is inconclusive when a class the specification lists was never sent",
+        "value classes are concretised by the harness (one concrete value per class); 'any request' = the request classes of ConfigSpaceGrammar (HttpReqs, ServerReqs, MqttReqs, PolicyReqs; HTTP request paths are derived from the configured paths /a and /api: bare, trailing slash, extra segments, other case, percent-encoded, no segment boundary; SigReqs carry signatures made by the repository's signer with key k/secret s, k/empty secret, and a garbage signature header; CtxReqs are requests whose context ends while they are served: cancelled before arrival, cancelled by the harness's backend while the backend call is in progress, deadline expiring while the backend call or a retry back-off is in progress; the server class 'abort' closes the connection in the middle of the announced body); enum-like string fields carry the value class 'a valid value in another letter case'; every string validated by a pkg/v format (duration, regexp, httpmethod, urlname, base64, url, uri, ipcidr - found by walking the rendered spec along the repository's spec types) carries the value class 'a valid value with one leading / trailing blank' (grammar field pad; on a tree whose validation rejects such values nothing is served); TLC reports the (kind, class) pairs handled and the run is inconclusive when a class the specification lists was never sent",
         "a filter is driven inside a real one-node Pipeline created through Supervisor.NewSpec (the admin API's validation); backends are local httptest servers, the cluster is clustertest.MockedCluster",
         "kinds that need external systems are validate-only (KafkaMQTT, Kafka, RemoteFilter, CertExtractor) or skipped (WasmHost: build tag; ConnectControl, TopicMapper, MQTTClientAuth: MQTT-session filters; service registries, AutoCertManager, mesh, tracing, HTTP/3)",
         "a panic in a goroutine owned by the object under test is observed as a crash of the harness process and attributed to the life-cycle call in flight",
@@ -476,9 +476,49 @@ def run(ctx):
     if ta * 10 < ta + tr_:
         ctx.inconclusive("C13 vacuity guard: only %d of %d configurations were accepted" % (ta, ta + tr_))
     ctx.cov["accepted"], ctx.cov["rejected"] = ta, tr_
+    _check_padding(ctx, cfgs, per)
     ctx.cov["pairwise_coverage"] = _pairwise(cfgs, per)
     ctx.cov["ms_per_config"] = {k: round(v[0] / max(1, v[1]), 1) for k, v in sorted(runner.ms.items())}
     ctx.log("accepted/rejected per kind: " + ", ".join("%s %d/%d" % (k, acc.get(k, 0), rej.get(k, 0)) for k in ALL_KINDS))
+
+
+def _check_padding(ctx, cfgs, per):
+    """The value class 'valid value with leading / trailing white space' (grammar field pad) against what the
+    harness found in the repository's types: every pad class of every kind must have padded a string at least
+    once, and the harness must not find a format in a kind whose pad field does not list it (the class would
+    silently miss format-validated fields)."""
+    did, listed, found = {}, {}, {}
+    noop, mism, padded_cfgs, padded_acc = 0, [], 0, 0
+    for c in cfgs:
+        v = next((e for e in per.get(c["c"], []) if e.get("ev") == "validate"), None)
+        if v is None or "fams" not in v:
+            continue
+        k, pad = c["kind"], c["cfg"].get("pad", "-")
+        found.setdefault(k, set()).update(v["fams"])
+        if pad != "-":
+            listed.setdefault(k, set()).add(pad.rsplit("_", 1)[0])
+            padded_cfgs += 1
+            if v.get("padded", 0) > 0:
+                did[(k, pad)] = did.get((k, pad), 0) + 1
+                padded_acc += 1 if v.get("acc") else 0
+            else:
+                did.setdefault((k, pad), 0)
+                noop += 1
+        elif c.get("fmts") is not None and sorted(v["fams"]) != c["fmts"] and len(mism) < 8:
+            mism.append({"kind": k, "fields": fstr({f: x for f, x in c["cfg"].items() if f != "pad"})[:160], "grammar": c["fmts"], "harness": sorted(v["fams"])})
+    ctx.cov["padding"] = {"padded_configs": padded_cfgs, "padded_and_accepted": padded_acc, "pad_without_effect": noop,
+                          "pad_classes_exercised": sum(1 for n in did.values() if n), "formats_found_per_kind": {k: sorted(x) for k, x in sorted(found.items())},
+                          "carrier_table_differs_sample": mism}
+    dead = sorted("%s/%s" % kp for kp, n in did.items() if n == 0)
+    if dead:
+        ctx.inconclusive("C13: pad classes that never padded a string (carrier table of ConfigSpaceGrammar out of step with the renderer): %s" % dead[:10])
+    for k in ALL_KINDS:
+        if not listed.get(k):
+            ctx.inconclusive("C13: no padded configuration of kind %s was generated" % k)
+        extra = found.get(k, set()) - listed[k]
+        if extra:
+            ctx.inconclusive("C13: the repository validates format(s) %s in configurations of kind %s but the kind's pad field does not list them"
+                             % (sorted(extra), k))
 
 
 def _pairwise(cfgs, per):
@@ -548,7 +588,7 @@ def _generate(ctx, tier, base):
         if key in seen:
             return
         seen.add(key)
-        cfgs.append({"c": len(cfgs) + 1, "kind": r["kind"], "cfg": r["cfg"]})
+        cfgs.append({"c": len(cfgs) + 1, "kind": r["kind"], "cfg": r["cfg"], "fmts": sorted(r.get("fmts") or [])})
 
     jobs = sorted(by_r.items())
     with ThreadPoolExecutor(max_workers=3) as ex:
